@@ -1,0 +1,146 @@
+use crate::engine::core::compaction::handover::{CompactionHandover, SegmentCache};
+use crate::engine::core::compaction::segment_batch::{SegmentBatch, UidPlan};
+use crate::engine::core::{PublishedUids, SegmentEntry, SegmentIndex};
+use std::sync::{Arc, RwLock};
+use tempfile::tempdir;
+
+struct NoCache;
+
+impl SegmentCache for NoCache {
+    fn invalidate_segment(&self, _segment_label: &str) {}
+}
+
+fn uids(list: &[&str]) -> Vec<String> {
+    list.iter().map(|u| u.to_string()).collect()
+}
+
+#[test]
+fn segment_without_entry_is_unrestricted() {
+    let published = PublishedUids::default();
+    assert!(published.serves("00001", "uidA"));
+
+    published.record("00001", Some(&uids(&["uidA"])));
+    assert!(published.serves("00001", "uidA"));
+    assert!(!published.serves("00001", "uidB"));
+    assert!(published.serves("00002", "uidB"));
+
+    // a retired segment is forgotten: its label may name a new segment later
+    published.record("00001", None);
+    assert!(published.serves("00001", "uidB"));
+}
+
+#[test]
+fn for_shard_hands_out_one_instance_per_directory() {
+    let dir_a = tempdir().unwrap();
+    let dir_b = tempdir().unwrap();
+    let a = PublishedUids::for_shard(dir_a.path());
+    a.record("00001", Some(&uids(&["uidA"])));
+
+    assert!(!PublishedUids::for_shard(dir_a.path()).serves("00001", "uidB"));
+    assert!(PublishedUids::for_shard(dir_b.path()).serves("00001", "uidB"));
+}
+
+#[tokio::test]
+async fn load_from_index_replaces_recorded_lists() {
+    let dir = tempdir().unwrap();
+    let mut index = SegmentIndex::load(dir.path()).await.unwrap();
+    index.insert_entry(SegmentEntry {
+        id: 2,
+        uids: uids(&["uidA"]),
+    });
+    index.insert_entry(SegmentEntry {
+        id: 10_000,
+        uids: uids(&["uidA", "uidB"]),
+    });
+    index.save(dir.path()).await.unwrap();
+
+    let published = PublishedUids::default();
+    published.record("00007", Some(&uids(&["uidA"])));
+    published.load_from_index(dir.path());
+
+    assert!(published.serves("00002", "uidA"));
+    assert!(!published.serves("00002", "uidB"));
+    assert!(published.serves("10000", "uidB"));
+    assert!(
+        published.serves("00007", "uidB"),
+        "stale entry must be gone"
+    );
+
+    // no index: nothing is restricted
+    let empty = tempdir().unwrap();
+    published.load_from_index(empty.path());
+    assert!(published.serves("00002", "uidB"));
+}
+
+#[tokio::test]
+async fn handover_stops_partially_drained_input_from_serving_moved_uid() {
+    let shard_dir = tempdir().unwrap();
+    let shard_path = shard_dir.path().to_path_buf();
+    for label in ["00001", "00002", "10000"] {
+        std::fs::create_dir_all(shard_path.join(label)).unwrap();
+    }
+
+    let mut index = SegmentIndex::load(&shard_path).await.unwrap();
+    index.insert_entry(SegmentEntry {
+        id: 1,
+        uids: uids(&["uidA"]),
+    });
+    index.insert_entry(SegmentEntry {
+        id: 2,
+        uids: uids(&["uidA", "uidB"]),
+    });
+    index.save(&shard_path).await.unwrap();
+
+    let published = PublishedUids::for_shard(&shard_path);
+    published.load_from_index(&shard_path);
+    assert!(published.serves("00002", "uidA"));
+
+    let segment_ids = Arc::new(RwLock::new(vec!["00001".to_string(), "00002".to_string()]));
+    let handover = CompactionHandover::with_caches(
+        0,
+        shard_path.clone(),
+        Arc::clone(&segment_ids),
+        Arc::new(tokio::sync::Mutex::new(())),
+        Arc::new(NoCache),
+        Arc::new(NoCache),
+        Arc::new(NoCache),
+        Arc::new(NoCache),
+        Arc::new(NoCache),
+    );
+    let batch = SegmentBatch {
+        input_segment_labels: vec!["00001".into(), "00002".into()],
+        uid_plans: vec![UidPlan {
+            uid: "uidA".to_string(),
+            output_segment_id: 10_000,
+        }],
+    };
+    let drained = handover
+        .commit_batch(
+            &batch,
+            vec![SegmentEntry {
+                id: 10_000,
+                uids: uids(&["uidA"]),
+            }],
+        )
+        .await
+        .unwrap();
+
+    assert_eq!(drained, vec!["00001".to_string()]);
+    assert_eq!(
+        segment_ids.read().unwrap().clone(),
+        vec!["00002".to_string(), "10000".to_string()]
+    );
+    // 00002 stays published for uidB only; uidA is served by the output segment
+    assert!(!published.serves("00002", "uidA"));
+    assert!(published.serves("00002", "uidB"));
+    assert!(published.serves("10000", "uidA"));
+    assert!(!published.serves("10000", "uidB"));
+    // 00001 is retired: a later segment of that name is unrestricted again
+    assert!(published.serves("00001", "uidB"));
+
+    // a restart derives the same answer from segments.idx
+    let after_restart = PublishedUids::default();
+    after_restart.load_from_index(&shard_path);
+    assert!(!after_restart.serves("00002", "uidA"));
+    assert!(after_restart.serves("00002", "uidB"));
+}
